@@ -263,7 +263,14 @@ MainLoop:
 			// send timer based on the remote's preferences.
 			oldState := s.getLocalState()
 			s.transition(ctx, event(s.remoteState))
-			if oldState == stateDown && s.getLocalState() != stateDown {
+			leftDown := oldState == stateDown && s.getLocalState() != stateDown
+			if s.getLocalState() == stateAdminDown {
+				// AdminDown is reserved for local administrative action, which is not
+				// supported. A received AdminDown only brings the session down (RFC 5880,
+				// section 6.8.6); the session must remain able to come up again.
+				s.setLocalState(stateDown)
+			}
+			if leftDown {
 				s.desiredMinTXInterval = s.DesiredMinTxInterval
 				// Cancel any pending send to accelerate the timer.
 				if !sendTimer.Stop() {
